@@ -29,7 +29,7 @@ def plan(ctx):
             cases = P.corpus_cases(ctx, v, n_files=12, n_w3=60, modes=2, max_file_bytes=15000, w3_size=0.7, w1_max_bytes=40000)
             cases += P.w9_cases(ctx, 240)
         else:
-            cases = P.corpus_cases(ctx, v, n_files=300, n_w3=1500, modes=40, max_file_bytes=60000)
+            cases = P.corpus_cases(ctx, v, n_files=300, n_w3=1500, modes=40, max_file_bytes=60000, max_w4_bytes=100000)
             cases += P.w9_cases(ctx, 6000)
         shards.extend(P.split(ctx, v, cases, k, "C15:produce:", extra={"role": "produce"}))
     return shards
